@@ -3,6 +3,8 @@ mod gen;
 mod out;
 mod p_c02;
 mod p_c20;
+mod p_get;
+mod dump;
 mod rng;
 mod tables;
 mod witness;
@@ -21,6 +23,10 @@ fn main() {
             match prop.as_str() {
                 "C02" => p_c02::run(&mut out, tier, seed),
                 "C20" => p_c20::run(&mut out, tier, seed),
+                "C10" => p_get::run_c10(&mut out, tier, seed),
+                "C11" => p_get::run_c11(&mut out, tier, seed),
+                "C12" => p_get::run_c12(&mut out, tier, seed),
+                "C14" => p_get::run_c14(&mut out, tier, seed),
                 _ => {
                     eprintln!("unknown property {prop}");
                     std::process::exit(2);
